@@ -6,7 +6,8 @@
         although the doc comment of covariance() says 1/(n-1));
      NormalizeComponentsUnitVariance.h         diag = 1/stddev, offset = -mean/stddev; stddev == 0 -> (0,0);
      NormalizeComponentsUnitInterval.h         diag = 1/(max-min), offset = -min/(max-min);
-                                               min == max -> (0, -min + 1/2)   (the coded convention, finding F17);
+                                               min == max -> (0, 1/2)   (before the repair d1f9a025: (0, -min + 1/2), finding F17,
+                                               kept below as ui_params_coded);
      src/Algorithms/LinearRegression.cpp       A = sum_b (X_b|1)^T (X_b|1) + lambda on the first d diagonal entries,
                                                T = sum_b (X_b|1)^T L_b   (NO division by n: lambda is relative to the
                                                SUM of squared errors);
@@ -83,8 +84,9 @@ Definition uv_accept (v m dg off : Q) : bool :=
 Definition ui_params (mn mx : Q) : Q * Q :=
   if Qeq_bool mn mx then (0, 1 # 2)
   else let n := 1 / (mx - mn) in (n, - mn * n).
-(* ... and as coded in the pinned tree (finding F17): offset = -min + 0.5 for a constant feature, so the
-   output is 0.5 - c instead of 0.5 (C15Proofs.ui_coded_constant_output). *)
+(* REGRESSION WITNESS, not the current code: the parameters as coded BEFORE the repair d1f9a025 (finding F17):
+   offset = -min + 0.5 for a constant feature, so the output was 0.5 - c instead of 0.5
+   (C15Proofs.ui_coded_constant_output).  Since d1f9a025 the C++ computes ui_params above. *)
 Definition ui_params_coded (mn mx : Q) : Q * Q :=
   if Qeq_bool mn mx then (0, - mn + (1 # 2))
   else let n := 1 / (mx - mn) in (n, - mn * n).
@@ -173,3 +175,10 @@ Definition pca_dec (m : nat) (V : nat -> nat -> Q) (mu : nat -> Q) (j : nat) (z 
   sumn m (fun i => V j i * z i) + mu j.
 Definition pca_proj (d m : nat) (V : nat -> nat -> Q) (mu : nat -> Q) (x : nat -> Q) (j : nat) : Q :=
   pca_dec m V mu j (fun i => pca_enc d V mu i x).
+
+(* ---- NormalizeComponentsZCA (after the repair 2b5526e7): only the k eigen-directions with positive variance are
+   rescaled, the others are mapped to 0:  W = r * sum_{i<k} (1/s_i) v_i v_i^T  (s_i = sqrt(ev_i), r = sqrt(tv)) ---- *)
+Definition zca_mat (k : nat) (V : nat -> nat -> Q) (s : nat -> Q) (r : Q) (a j : nat) : Q :=
+  sumn k (fun i => r / s i * V a i * V j i).
+(* V_k V_k^T: the orthogonal projector onto the span of the first k directions (= range of the covariance) *)
+Definition proj (k : nat) (V : nat -> nat -> Q) (a c : nat) : Q := sumn k (fun i => V a i * V c i).
